@@ -17,6 +17,11 @@ for _n in _m.families():
     if _m.std_of(_n) == "c++20":
         _units.append(Unit(_n + "_cxx23", None, std="c++23", gen=_m.make_gen(_n, std="c++23", rename=_n + "_cxx23"), flavours=_T,
                            shards={"quick": 1, "thorough": 1}))
+# target axis: plain char unsigned (-funsigned-char, the ABI default on ARM/AArch64/PowerPC embedded targets): the families whose cells depend on
+# the signedness of char are evaluated once more with both sides compiled that way
+for _n in ("C15_limits", "C15_ub_props", "C15_ut_a", "C15_ut_b", "C15_misc"):
+    _units.append(Unit(_n + "_uchar", None, std=_m.std_of(_n), defs=["-funsigned-char"], gen=_m.make_gen(_n, rename=_n + "_uchar"), flavours=_Q,
+                       shards={"quick": 1, "thorough": 1}))
 # thorough: second front end (clang++-16 evaluates the same cells; its results are embedded as static data)
 for _n in _m.families():
     _units.append(Unit(_n + "_clang", None, std=_m.std_of(_n), gen=_m.make_clang_gen(_n), flavours=_T, shards={"quick": 1, "thorough": 1}))
@@ -31,7 +36,7 @@ P = dict(
                 "program walks the arrays at run time emitting one record per unequal cell, keyed by trait and TYPE CATEGORY. Cells that are hard "
                 "errors inside tetl are isolated by a compile -> map diagnostics to cell lines -> exclude -> recompile fixpoint and reported as "
                 "compile-failure records with the same kind of key. Held means: every generated cell compiled and agreed with libstdc++ 12 as "
-                "evaluated by gcc 12 (and, thorough, by clang++-16 and under -std=c++23), modulo the listed findings; it is not a proof for types "
+                "evaluated by gcc 12 (limits/property/transformation families also with plain char unsigned, -funsigned-char; thorough: also by clang++-16 and under -std=c++23), modulo the listed findings; it is not a proof for types "
                 "outside the zoo."),
     level_note=("trusts libstdc++ 12 <type_traits>/<concepts>/<limits>/<ratio>/<cstdint> as evaluated by gcc 12.2 (thorough: clang 16) as the oracle; "
                 "scope is the finite zoo (261 types, 1936 ordered pairs of a 44-type mini zoo + 687 adversarial conversion pairs, 33+16 ratios) - every cell of it is evaluated, nothing is sampled"),
